@@ -146,6 +146,22 @@ def match_kept_rule(rep, R4, enc, where):
             dests.add(t["dest"]["l"])
     if not dests:
         return
+    # the (length, displacement) pair itself has a second source next to the search (`if shortcut { (0x12, last) }
+    # else { search(..) }`): a reference built from it is bounded by nothing the search guarantees (match inside the
+    # window, length within the bytes that remain)
+    for l in sorted(dests):
+        for (bi, si, kind, payload) in b.defs().get(l, []):
+            if kind != "assign" or payload["rv"]["k"] != "agg" or len(payload["rv"]["fields"]) != 2:
+                continue
+            t_ = b.term_of_rvalue(payload["rv"])
+            ln = strip_refs(t_[4][0])
+            while ln[0] == "cast":
+                ln = strip_refs(ln[1])
+            if ln[0] == "const" and isinstance(ln[1], int) and ln[1] < 3:
+                continue          # below the reference threshold: the token is a literal, as if nothing was found
+            rep.violation(R4, b.name, "match-substituted", "the (length, displacement) that the token is built from can also be %s (line %s) instead of the search's result: its length is not limited to the bytes that remain and its displacement not to the window" % (
+                fmt(t_)[:60], payload.get("line")), where)
+            return
     over = None
     for l in range(len(b.locals)):
         ds = b.defs().get(l, [])
@@ -441,8 +457,21 @@ def _sub(a, b):
     return ({k: v for k, v in d.items() if v}, a[1] - b[1])
 
 
+def chunk_tail_rule(facts, rep, R3, sb, where):
+    """`chunks_exact(k)` walks whole blocks only; what is left over (len % k elements) is reachable only through
+    `remainder()`.  A comparison of the look-ahead done block-wise without that call never sees the last bytes."""
+    bodies = [sb] + [facts.bodies[i] for i in facts.reachable_from([sb.id])[0] if i != sb.id and facts.bodies[i].kind == "Closure"]
+    ce = [(b2, t) for b2 in bodies for bb, t in b2.calls() if (callee_names(t)[1] or "").endswith("<impl [T]>::chunks_exact")]
+    rem = [1 for b2 in bodies for bb, t in b2.calls() if (callee_names(t)[1] or "").rsplit("::", 1)[-1] in ("remainder", "into_remainder")]
+    if ce and not rem:
+        k = strip_refs(ce[0][0].term_of_operand(ce[0][1]["args"][1])) if len(ce[0][1]["args"]) > 1 else ("?",)
+        rep.violation(R3, sb.name, "tail-dropped", "the search compares in blocks of %s with chunks_exact and never looks at remainder(): the last (look-ahead length mod %s) bytes are never compared, so a repetition is cut short at a block boundary" % (
+            fmt(k), fmt(k)), "%s:%s" % (sb.file, ce[0][1]["line"]))
+
+
 def search_contract(facts, rep, R3, sb):
     where = "%s:%s" % (sb.file, sb.line)
+    chunk_tail_rule(facts, rep, R3, sb, where)
     try:
         paths = enum_paths(sb)
     except PathLimit:
